@@ -1,67 +1,14 @@
 /-
   DDProofs.DumpProofs — dump / load round trips on file *contents* (C12).
 
-  The specifications of `find_or_add` and `add_var` are taken as explicit hypotheses
-  (`DmpFoaSpec`, `AddVarSpec`) so that they can be discharged by the core proofs;
-  everything else is proved here.
+  Uses the core specifications `findOrAdd_spec` / `iteF_spec` (DDProofs.Ite) and the
+  `add_var` facts of DDProofs.VarsProofs; nothing is assumed.
 -/
 import DD.Dump
-import DDProofs.Inv
+import DDProofs.Ite
+import DDProofs.VarsProofs
 open Std
 namespace DD
-
-/-! ### hypotheses to be discharged by the core proofs -/
-
-/-- the specification of `find_or_add` the loaders need -/
-def DmpFoaSpec : Prop :=
-  ∀ (m : Mgr) (i : Nat) (v w : Int), Inv m → i < m.nvars → m.tbl.Mem v → m.tbl.Mem w →
-    i < m.tbl.levelOf v → i < m.tbl.levelOf w →
-    ∃ r m', findOrAddCore i v w m = (.ok r, m') ∧ Inv m' ∧ Ext m.tbl m'.tbl ∧ m'.tbl.Mem r ∧
-      i ≤ m'.tbl.levelOf r ∧
-      (∀ a, den m'.tbl r a = if a i then den m.tbl w a else den m.tbl v a)
-
-/-! ### fields that `find_or_add` and the reference counters never touch -/
-
-structure DmpFrame (m m' : Mgr) : Prop where
-  ctx : m'.ctx = m.ctx
-  vars : m'.tbl.vars = m.tbl.vars
-  l2v : m'.tbl.l2v = m.tbl.l2v
-  lastLen : m'.lastLen = m.lastLen
-  roots : m'.roots = m.roots
-
-theorem DmpFrame.refl (m : Mgr) : DmpFrame m m := ⟨rfl, rfl, rfl, rfl, rfl⟩
-theorem DmpFrame.trans {a b c : Mgr} (h1 : DmpFrame a b) (h2 : DmpFrame b c) : DmpFrame a c :=
-  ⟨h2.ctx.trans h1.ctx, h2.vars.trans h1.vars, h2.l2v.trans h1.l2v, h2.lastLen.trans h1.lastLen,
-   h2.roots.trans h1.roots⟩
-
-theorem dmp_incref_frame (u : Int) (m : Mgr) : DmpFrame m (incref u m).2 := by
-  unfold incref; split <;> exact ⟨rfl, rfl, rfl, rfl, rfl⟩
-
-theorem incref_frame' {u : Int} {m m' : Mgr} {r} (h : incref u m = (r, m')) : DmpFrame m m' := by
-  have := dmp_incref_frame u m; rw [h] at this; exact this
-
-theorem dmp_findOrAddCore_frame (i : Nat) (v w : Int) (m : Mgr) : DmpFrame m (findOrAddCore i v w m).2 := by
-  unfold findOrAddCore
-  dsimp only
-  repeat' split
-  all_goals first
-    | exact DmpFrame.refl _
-    | (rename_i _ _ _ h1 _ _ _ h2
-       refine DmpFrame.trans (DmpFrame.trans ?_ (incref_frame' h1)) (incref_frame' h2)
-       exact ⟨rfl, rfl, rfl, rfl, rfl⟩)
-    | (rename_i _ _ _ h1
-       refine DmpFrame.trans ?_ (incref_frame' h1)
-       exact ⟨rfl, rfl, rfl, rfl, rfl⟩)
-
-theorem findOrAddCore_frame' {i : Nat} {v w : Int} {m m' : Mgr} {r}
-    (h : findOrAddCore i v w m = (r, m')) : DmpFrame m m' := by
-  have := dmp_findOrAddCore_frame i v w m; rw [h] at this; exact this
-
-/-- outside a reordering context `find_or_add` is its core -/
-theorem dmp_findOrAdd_eq_core (m : Mgr) (j : Nat) (p q : Int) (hc : m.ctx = false) :
-    findOrAdd (j : Int) p q m = findOrAddCore j p q m := by
-  have h : ¬ ((j : Int) < 0) := by omega
-  simp [findOrAdd, bind, M.bind', M.get, hc, h]
 
 /-! ### semantics of a file content over *target levels* (through a level map) -/
 
@@ -176,47 +123,22 @@ theorem evalL_neg {succ : List PEntry} {lm : List (Nat × Nat)} (k : Nat) (u : I
 
 /-! ### `_load`: the recursive rebuild -/
 
-/-- the level map is defined on the levels the file uses, lands in declared levels,
-and is strictly increasing -/
+/-- the level map is defined on the levels the file uses and lands in declared levels
+(no monotonicity: nodes are built with `_ite` on the mapped variable) -/
 structure LMOK (succ : List PEntry) (lm : List (Nat × Nat)) (N : Nat) : Prop where
   dom : ∀ k e, PEntry.find succ k = some e → k ≠ 1 → ∃ j, lm.lookup e.lvl = some j ∧ j < N
-  mono : ∀ i i' j j', lm.lookup i = some j → lm.lookup i' = some j' → i < i' → j < j'
-
-/-- level in the receiving manager of a reference of the file -/
-def tlevel (succ : List PEntry) (lm : List (Nat × Nat)) (N : Nat) (u : Int) : Nat :=
-  if u.natAbs = 1 then N else
-  match PEntry.find succ u.natAbs with
-  | some e => (lm.lookup e.lvl).getD N
-  | none => N
 
 /-- invariant of `umap` -/
-def UOK (succ : List PEntry) (lm : List (Nat × Nat)) (n N : Nat) (t : Tbl) (umap : TreeMap Int Int) : Prop :=
-  ∀ k r, umap[k]? = some r → 1 < k ∧ 0 < r ∧ t.Mem r ∧ (PEntry.find succ k.natAbs).isSome ∧
-    tlevel succ lm N k ≤ t.levelOf r ∧ ∀ a, den t r a = evalL succ lm (n + 1) k a
+def UOK (succ : List PEntry) (lm : List (Nat × Nat)) (n : Nat) (t : Tbl) (umap : TreeMap Int Int) : Prop :=
+  ∀ k r, umap[k]? = some r → 1 < k ∧ t.Mem r ∧ (PEntry.find succ k.natAbs).isSome ∧
+    ∀ a, den t r a = evalL succ lm (n + 1) k a
 
-theorem UOK.ext {succ lm n N} {t t' : Tbl} {umap : TreeMap Int Int} (h : UOK succ lm n N t umap)
-    (hw : WF t) (he : Ext t t') : UOK succ lm n N t' umap := by
+theorem UOK.ext {succ lm n} {t t' : Tbl} {umap : TreeMap Int Int} (h : UOK succ lm n t umap)
+    (hw : WF t) (he : Ext t t') : UOK succ lm n t' umap := by
   intro k r hk
-  obtain ⟨h1, h2, h3, h4, h5, h6⟩ := h k r hk
-  refine ⟨h1, h2, he.mem h3, h4, ?_, ?_⟩
-  · rw [he.levelOf h3]; exact h5
-  · intro a; rw [den_ext he hw r a h3]; exact h6 a
-
-theorem tlevel_lt {succ lm n N} (hs : SuccWF succ n) (hl : LMOK succ lm N) (e : PEntry) (j : Nat) (c : Int)
-    (hj : lm.lookup e.lvl = some j) (hjN : j < N) (hr : FRef succ c) (hlt : e.lvl < flevel succ n c) :
-    j < tlevel succ lm N c := by
-  unfold tlevel
-  by_cases h1 : c.natAbs = 1
-  · simp [h1, hjN]
-  · simp only [h1, if_false]
-    rcases hr with hr | hr
-    · exact absurd hr h1
-    · obtain ⟨e', he'⟩ := Option.isSome_iff_exists.mp hr
-      simp only [he']
-      obtain ⟨j', hj', _⟩ := hl.dom _ e' he' h1
-      have : flevel succ n c = e'.lvl := by simp [flevel, h1, he']
-      rw [hj']
-      exact hl.mono _ _ _ _ hj hj' (by omega)
+  obtain ⟨h1, h3, h4, h6⟩ := h k r hk
+  refine ⟨h1, he.mem h3, h4, ?_⟩
+  intro a; rw [den_ext he hw r a h3]; exact h6 a
 
 theorem evalL_term (succ lm) (k : Nat) (u : Int) (a : Asg) (h : u.natAbs = 1) :
     evalL succ lm (k+1) u a = decide (0 < u) := by
@@ -227,14 +149,19 @@ theorem dmp_den_term (t : Tbl) (u : Int) (a : Asg) (h : u.natAbs = 1) : den t u 
   · simp [den_one]
   · rw [den_neg_one]; simp
 
-theorem loadNodeF_spec (hF : DmpFoaSpec) {succ : List PEntry} {lm : List (Nat × Nat)} {n N : Nat}
+theorem iteRaw_eq (g u v : Int) (m : Mgr) : iteRaw g u v m = iteF (m.nvars + 2) g u v m := by
+  simp [iteRaw, bind, M.bind', M.get]
+
+/-- `_load` on a well-formed content: the result denotes, over the levels of the receiving
+manager, what the file says for `u`; only nodes are added -/
+theorem loadNodeF_spec {succ : List PEntry} {lm : List (Nat × Nat)} {n N : Nat}
     (hs : SuccWF succ n) (hl : LMOK succ lm N) :
-    ∀ fuel u umap m, Inv m → m.ctx = false → m.nvars = N → UOK succ lm n N m.tbl umap → FRef succ u →
+    ∀ fuel u umap m, Inv m → m.ctx = false → m.nvars = N → UOK succ lm n m.tbl umap → FRef succ u →
       n + 1 ≤ fuel + flevel succ n u →
-      ∃ r umap' m', loadNodeF succ lm fuel u umap m = (.ok (r, umap'), m') ∧ Inv m' ∧ DmpFrame m m' ∧
-        Ext m.tbl m'.tbl ∧ UOK succ lm n N m'.tbl umap' ∧
+      ∃ r umap' m', loadNodeF succ lm fuel u umap m = (.ok (r, umap'), m') ∧ Inv m' ∧ Frame m m' ∧
+        Ext m.tbl m'.tbl ∧ UOK succ lm n m'.tbl umap' ∧
         (∀ k, umap.contains k = true → umap'.contains k = true) ∧
-        m'.tbl.Mem r ∧ tlevel succ lm N u ≤ m'.tbl.levelOf r ∧ (0 < r ↔ 0 < u) ∧
+        m'.tbl.Mem r ∧
         (∀ a, den m'.tbl r a = evalL succ lm (n + 1) u a) ∧
         (u.natAbs ≠ 1 → umap'.contains (u.natAbs : Int) = true) := by
   intro fuel
@@ -249,8 +176,7 @@ theorem loadNodeF_spec (hF : DmpFoaSpec) {succ : List PEntry} {lm : List (Nat ×
     dsimp only
     by_cases h1 : u.natAbs = 1
     · rw [if_pos h1]
-      refine ⟨u, umap, m, rfl, hI, DmpFrame.refl _, Ext.refl _, hU, fun _ h => h, Or.inl h1, ?_, Iff.rfl, ?_, ?_⟩
-      · rw [levelOf_term _ _ h1]; simp [tlevel, h1, ← hN, Mgr.nvars]
+      refine ⟨u, umap, m, rfl, hI, Frame.refl _, Ext.refl _, hU, fun _ h => h, Or.inl h1, ?_, ?_⟩
       · intro a; rw [dmp_den_term _ _ _ h1, evalL_term _ _ _ _ _ h1]
       · intro h; exact absurd h1 h
     · rw [if_neg h1]
@@ -259,16 +185,14 @@ theorem loadNodeF_spec (hF : DmpFoaSpec) {succ : List PEntry} {lm : List (Nat ×
         obtain ⟨r, hr'⟩ : ∃ r, umap[u]? = some r := by
           rw [TreeMap.contains_eq_isSome_getElem?] at hmem
           exact Option.isSome_iff_exists.mp hmem
-        obtain ⟨k1, r0, rm, rf, rl, rd⟩ := hU u r hr'
+        obtain ⟨k1, rm, rf, rd⟩ := hU u r hr'
         have habs : (u.natAbs : Int) = u := by omega
         rw [habs, hr']
         simp only
-        have hr0 : ¬ r ≤ 0 := by omega
+        have hr0 : ¬ r = 0 := mem_ne_zero hI.wf.toWF rm
         have hu0 : ¬ u < 0 := by omega
         rw [if_neg hr0, if_neg hu0]
-        refine ⟨r, umap, m, rfl, hI, DmpFrame.refl _, Ext.refl _, hU, fun _ h => h, rm, rl, ?_, rd, ?_⟩
-        · constructor <;> intro <;> omega
-        · intro _; exact hmem
+        exact ⟨r, umap, m, rfl, hI, Frame.refl _, Ext.refl _, hU, fun _ h => h, rm, rd, fun _ => hmem⟩
       · rw [if_neg hmem]
         rcases hr with hr | hr
         · exact absurd hr h1
@@ -278,87 +202,97 @@ theorem loadNodeF_spec (hF : DmpFoaSpec) {succ : List PEntry} {lm : List (Nat ×
         have hfl : flevel succ n u = e.lvl := by simp [flevel, h1, he]
         simp only [he, hj, hv, hw]
         -- low
-        obtain ⟨p, umap1, m1, e1, I1, F1, X1, U1, D1, Mp, Lp, Sp, Dp, _⟩ :=
+        obtain ⟨p, umap1, m1, e1, I1, F1, X1, U1, D1, Mp, Dp, _⟩ :=
           ih v umap m hI hc hN hU rv (by omega)
         rw [e1]
         simp only
         have hc1 : m1.ctx = false := by rw [F1.ctx]; exact hc
         have hN1 : m1.nvars = N := by rw [← hN]; exact X1.nvars.symm
         -- high
-        obtain ⟨q, umap2, m2, e2, I2, F2, X2, U2, D2, Mq, Lq, Sq, Dq, _⟩ :=
+        obtain ⟨q, umap2, m2, e2, I2, F2, X2, U2, D2, Mq, Dq, _⟩ :=
           ih w umap1 m1 I1 hc1 hN1 U1 rw' (by omega)
         rw [e2]
         simp only
         have hc2 : m2.ctx = false := by rw [F2.ctx]; exact hc1
         have hN2 : m2.nvars = N := by rw [← hN1]; exact X2.nvars.symm
-        rw [dmp_findOrAdd_eq_core _ _ _ _ hc2]
-        have Mp2 : m2.tbl.Mem p := X2.mem Mp
-        have jp : j < m2.tbl.levelOf p := by
-          rw [X2.levelOf Mp]
-          exact Nat.lt_of_lt_of_le (tlevel_lt hs hl e j v hj hjN rv lv) Lp
-        have jq : j < m2.tbl.levelOf q :=
-          Nat.lt_of_lt_of_le (tlevel_lt hs hl e j w hj hjN rw' lw) Lq
-        obtain ⟨r, m3, e3, I3, X3, Mr, Lr, Dr⟩ := hF m2 j p q I2 (by rw [hN2]; exact hjN) Mp2 Mq jp jq
-        rw [e3]
-        simp only
-        have F3 : DmpFrame m2 m3 := findOrAddCore_frame' e3
-        have hqpos : 0 < q := Sq.mpr hwpos
-        have hrpos : 0 < r := by
-          have h1' := den_alltrue m3.tbl I3.wf.toWF m3.tbl.nvars r Mr (by omega)
-          have h2' := den_alltrue m2.tbl I2.wf.toWF m2.tbl.nvars q Mq (by omega)
-          rw [Dr] at h1'
-          simp only [if_true] at h1'
-          rw [h2'] at h1'
-          simpa [hqpos] using h1'.symm
-        have hr0 : ¬ r ≤ 0 := by omega
-        rw [if_neg hr0]
-        have hu0 : u ≠ 0 := by omega
-        have X13 : Ext m1.tbl m3.tbl := X2.trans X3
-        have tlu : tlevel succ lm N u = j := by simp [tlevel, h1, he, hj]
-        have hnode : ∀ a, den m3.tbl r a =
-            if a j then evalL succ lm (n + 1) w a else evalL succ lm (n + 1) v a := by
-          intro a
-          rw [Dr a, Dq a, den_ext X2 I1.wf.toWF p a Mp, Dp a]
-        refine ⟨_, _, m3, rfl, I3, (F1.trans F2).trans F3, (X1.trans X2).trans X3, ?_, ?_, ?_, ?_, ?_, ?_, ?_⟩
-        · -- UOK
-          intro k x hkx
-          rw [TreeMap.getElem?_insert] at hkx
-          by_cases hk : (u.natAbs : Int) = k
-          · simp [hk] at hkx
-            subst hkx
-            have hkn : k.natAbs = u.natAbs := by omega
-            refine ⟨by omega, hrpos, Mr, by rw [hkn]; simp [he], ?_, ?_⟩
-            · have : tlevel succ lm N k = j := by simp [tlevel, hkn, h1, he, hj]
-              rw [this]; exact Lr
-            · intro a
-              rw [evalL_node hs k a e v w j (by omega) (by rw [hkn]; exact he) hv hw hj, hnode a]
-              have : ¬ k < 0 := by omega
-              simp [this]
-          · have : compare (u.natAbs : Int) k ≠ .eq := by
-              intro h; exact hk (compare_eq_iff_eq.mp h)
-            simp [this] at hkx
-            exact (U2.ext I2.wf.toWF X3) k x hkx
-        · intro k hk
-          rw [TreeMap.contains_insert]
-          simp [D2 k (D1 k hk)]
-        · by_cases hneg : u < 0
-          · rw [if_pos hneg]; exact mem_neg Mr
-          · rw [if_neg hneg]; exact Mr
-        · rw [tlu]
-          by_cases hneg : u < 0
-          · rw [if_pos hneg, levelOf_neg]; exact Lr
-          · rw [if_neg hneg]; exact Lr
-        · by_cases hneg : u < 0
-          · rw [if_pos hneg]; constructor <;> intro <;> omega
-          · rw [if_neg hneg]; constructor <;> intro <;> omega
-        · intro a
-          rw [evalL_node hs u a e v w j h1 he hv hw hj, ← hnode a]
-          by_cases hneg : u < 0
-          · rw [if_pos hneg, den_neg m3.tbl I3.wf.toWF r a Mr]; simp [hneg]
-          · rw [if_neg hneg]; simp [hneg]
-        · intro _
-          rw [TreeMap.contains_insert]
-          simp
+        -- the variable node
+        have hjn : j < m2.nvars := by rw [hN2]; exact hjN
+        have hlt1 : ∀ c : Int, c.natAbs = 1 → j < m2.tbl.levelOf c := by
+          intro c hc'; rw [levelOf_term _ _ hc']; exact hjn
+        have hfo := findOrAdd_spec m2 I2 j (-1) 1 hjn (Or.inl rfl) (Or.inl rfl)
+          (hlt1 _ rfl) (hlt1 _ rfl)
+        cases hfe : findOrAdd (j : Int) (-1) 1 m2 with
+        | mk res m3 =>
+          rw [hfe] at hfo
+          cases res with
+          | error er =>
+            obtain ⟨_, hab⟩ := hfo
+            have := hab.armed.1
+            rw [hc2] at this
+            cases this
+          | ok g =>
+            have P3 : FoaPost' m2 j (-1) 1 g m3 := hfo
+            simp only
+            have hc3 : m3.ctx = false := by rw [P3.frame.ctx]; exact hc2
+            have Mq3 : m3.tbl.Mem q := P3.ext.mem Mq
+            have Mp3 : m3.tbl.Mem p := P3.ext.mem (X2.mem Mp)
+            rw [iteRaw_eq]
+            have hit := iteF_spec (m3.nvars + 2) m3 g q p P3.inv P3.mem Mq3 Mp3 (by omega)
+            cases hie : iteF (m3.nvars + 2) g q p m3 with
+            | mk res4 m4 =>
+              rw [hie] at hit
+              cases res4 with
+              | error er =>
+                obtain ⟨_, hab⟩ := hit
+                have := hab.armed.1
+                rw [hc3] at this
+                cases this
+              | ok r =>
+                have P4 : ItePost m3 g q p r m4 := hit
+                simp only
+                have hr0 : ¬ r = 0 := mem_ne_zero P4.inv.wf.toWF P4.mem
+                rw [if_neg hr0]
+                have hu0 : u ≠ 0 := by omega
+                have X24 : Ext m2.tbl m4.tbl := P3.ext.trans P4.ext
+                have hnode : ∀ a, den m4.tbl r a =
+                    if a j then evalL succ lm (n + 1) w a else evalL succ lm (n + 1) v a := by
+                  intro a
+                  rw [P4.den a, P3.den a, den_one, den_neg_one,
+                    den_ext P3.ext I2.wf.toWF q a Mq, Dq a,
+                    den_ext (X2.trans P3.ext) I1.wf.toWF p a Mp, Dp a]
+                  cases a j <;> simp
+                refine ⟨_, _, m4, rfl, P4.inv, ((F1.trans F2).trans P3.frame).trans P4.frame,
+                  (X1.trans X2).trans X24, ?_, ?_, ?_, ?_, ?_⟩
+                · -- UOK
+                  intro k x hkx
+                  rw [TreeMap.getElem?_insert] at hkx
+                  by_cases hk : (u.natAbs : Int) = k
+                  · simp [hk] at hkx
+                    subst hkx
+                    have hkn : k.natAbs = u.natAbs := by omega
+                    refine ⟨by omega, P4.mem, by rw [hkn]; simp [he], ?_⟩
+                    intro a
+                    rw [evalL_node hs k a e v w j (by omega) (by rw [hkn]; exact he) hv hw hj, hnode a]
+                    have : ¬ k < 0 := by omega
+                    simp [this]
+                  · have : compare (u.natAbs : Int) k ≠ .eq := by
+                      intro h; exact hk (compare_eq_iff_eq.mp h)
+                    simp [this] at hkx
+                    exact (U2.ext I2.wf.toWF X24) k x hkx
+                · intro k hk
+                  rw [TreeMap.contains_insert]
+                  simp [D2 k (D1 k hk)]
+                · by_cases hneg : u < 0
+                  · rw [if_pos hneg]; exact mem_neg P4.mem
+                  · rw [if_neg hneg]; exact P4.mem
+                · intro a
+                  rw [evalL_node hs u a e v w j h1 he hv hw hj, ← hnode a]
+                  by_cases hneg : u < 0
+                  · rw [if_pos hneg, den_neg m4.tbl P4.inv.wf.toWF r a P4.mem]; simp [hneg]
+                  · rw [if_neg hneg]; simp [hneg]
+                · intro _
+                  rw [TreeMap.contains_insert]
+                  simp
 
 /-! ### the loop over `succ`, the mapping of the roots -/
 
@@ -374,19 +308,19 @@ theorem PEntry.find_id {succ : List PEntry} {k : Nat} {e : PEntry} (h : PEntry.f
   have := List.find?_some h
   simpa using this
 
-theorem loadAll_spec (hF : DmpFoaSpec) {succ : List PEntry} {lm : List (Nat × Nat)} {n N fuel : Nat}
+theorem loadAll_spec {succ : List PEntry} {lm : List (Nat × Nat)} {n N fuel : Nat}
     (hs : SuccWF succ n) (hl : LMOK succ lm N) (hfuel : n + 1 ≤ fuel) :
     ∀ (es : List PEntry) umap m, (∀ e ∈ es, e ∈ succ) → Inv m → m.ctx = false → m.nvars = N →
-      UOK succ lm n N m.tbl umap →
-      ∃ umap' m', loadAll succ lm fuel es umap m = (.ok umap', m') ∧ Inv m' ∧ DmpFrame m m' ∧
-        Ext m.tbl m'.tbl ∧ UOK succ lm n N m'.tbl umap' ∧
+      UOK succ lm n m.tbl umap →
+      ∃ umap' m', loadAll succ lm fuel es umap m = (.ok umap', m') ∧ Inv m' ∧ Frame m m' ∧
+        Ext m.tbl m'.tbl ∧ UOK succ lm n m'.tbl umap' ∧
         (∀ k, umap.contains k = true → umap'.contains k = true) ∧
         (∀ e ∈ es, e.id ≠ 1 → umap'.contains (e.id : Int) = true) := by
   intro es
   induction es with
   | nil =>
     intro umap m _ hI _ _ hU
-    exact ⟨umap, m, rfl, hI, DmpFrame.refl _, Ext.refl _, hU, fun _ h => h, by simp⟩
+    exact ⟨umap, m, rfl, hI, Frame.refl _, Ext.refl _, hU, fun _ h => h, by simp⟩
   | cons e rest ih =>
     intro umap m hsub hI hc hN hU
     rw [loadAll]
@@ -402,8 +336,8 @@ theorem loadAll_spec (hF : DmpFoaSpec) {succ : List PEntry} {lm : List (Nat × N
       · exact A1 x h hx1
     · rw [if_neg hmem]
       have hr : FRef succ (e.id : Int) := Or.inr (by simpa using PEntry.find_isSome_of_mem (hsub e List.mem_cons_self))
-      obtain ⟨r, umap1, m1, e1, I1, F1, X1, U1, D1, _, _, _, _, C1⟩ :=
-        loadNodeF_spec hF hs hl fuel (e.id : Int) umap m hI hc hN hU hr (by omega)
+      obtain ⟨r, umap1, m1, e1, I1, F1, X1, U1, D1, _, _, C1⟩ :=
+        loadNodeF_spec hs hl fuel (e.id : Int) umap m hI hc hN hU hr (by omega)
       rw [e1]
       dsimp only
       have hc1 : m1.ctx = false := by rw [F1.ctx]; exact hc
@@ -423,6 +357,7 @@ inductive Forall2 {α β : Type} (R : α → β → Prop) : List α → List β 
 
 /-- same container shape, entries related pointwise -/
 inductive RootsRel (P : Int → Int → Prop) : Roots → Roots → Prop
+  | none : RootsRel P .none (.list [])
   | list {l l' : List Int} : Forall2 P l l' → RootsRel P (.list l) (.list l')
   | dict {d d' : List (String × Int)} :
       Forall2 (fun a b => a.1 = b.1 ∧ P a.2 b.2) d d' → RootsRel P (.dict d) (.dict d')
@@ -463,23 +398,30 @@ theorem Roots.mapE_spec {f : Int → Except Err Int} {P : Int → Int → Prop} 
     rfl
 
 
-/-- roots the loader can map: a container whose members are non-constant nodes of the file
-(`roots = None` is F2, a constant root is F11) -/
-structure RootsOK (f : PickleFile) : Prop where
-  some : f.roots ≠ .none
-  mem : ∀ u ∈ f.roots.values, u.natAbs ≠ 1 ∧ ∃ e ∈ f.succ, e.id = u.natAbs
+/-- the roots of the file are `None`, or a container of references the file can resolve
+(constants included) -/
+def RootsResolvable (f : PickleFile) : Prop :=
+  ∀ u ∈ f.roots.values, u.natAbs = 1 ∨ ∃ e ∈ f.succ, e.id = u.natAbs
 
-theorem UOK.empty (succ lm n N) (t : Tbl) : UOK succ lm n N t {} := by
+theorem UOK.empty (succ lm n) (t : Tbl) : UOK succ lm n t {} := by
   intro k r h
   simp at h
 
-/-- the second half of `load`: with the variables declared and a monotone level map, the
-nodes are rebuilt and the roots denote (over the target's levels) what the file says -/
-theorem loadPickle_core (hF : DmpFoaSpec) (f : PickleFile) (levels : Bool) (lm : List (Nat × Nat))
+theorem mapRoots_spec {umap : TreeMap Int Int} {P : Int → Int → Prop} (r : Roots)
+    (h : ∀ u ∈ r.values, ∃ v, mapNode umap u = .ok v ∧ P u v) :
+    ∃ r', mapRoots umap r = .ok r' ∧ RootsRel P r r' := by
+  cases r with
+  | none => exact ⟨.list [], rfl, .none⟩
+  | list l => exact Roots.mapE_spec (.list l) (by simp) h
+  | dict d => exact Roots.mapE_spec (.dict d) (by simp) h
+
+/-- the second half of `load`: with the variables declared, the nodes are rebuilt and the
+roots denote (over the target's levels) what the file says -/
+theorem loadPickle_core (f : PickleFile) (levels : Bool) (lm : List (Nat × Nat))
     (m m1 : Mgr) (hv : loadVars levels f.vars.length f.vars [] m = (.ok lm, m1))
     (hI : Inv m1) (hc : m1.ctx = false) (hs : SuccWF f.succ f.vars.length)
-    (hl : LMOK f.succ lm m1.nvars) (hr : RootsOK f) :
-    ∃ roots' m', loadPickle f levels m = (.ok roots', m') ∧ Inv m' ∧ DmpFrame m1 m' ∧
+    (hl : LMOK f.succ lm m1.nvars) (hr : RootsResolvable f) :
+    ∃ roots' m', loadPickle f levels m = (.ok roots', m') ∧ Inv m' ∧ Frame m1 m' ∧
       Ext m1.tbl m'.tbl ∧
       RootsRel (fun u r => m'.tbl.Mem r ∧
         ∀ a, den m'.tbl r a = evalL f.succ lm (f.vars.length + 1) u a) f.roots roots' := by
@@ -487,20 +429,24 @@ theorem loadPickle_core (hF : DmpFoaSpec) (f : PickleFile) (levels : Bool) (lm :
   rw [hv]
   dsimp only
   obtain ⟨umap, m2, e2, I2, F2, X2, U2, _, A2⟩ :=
-    loadAll_spec hF hs hl (fuel := f.vars.length + f.succ.length + 2) (by omega) f.succ {} m1
-      (fun _ h => h) hI hc rfl (UOK.empty _ _ _ _ _)
+    loadAll_spec hs hl (fuel := f.vars.length + f.succ.length + 2) (by omega) f.succ {} m1
+      (fun _ h => h) hI hc rfl (UOK.empty _ _ _ _)
   rw [e2]
   dsimp only
-  obtain ⟨r', h1, h2⟩ := Roots.mapE_spec (f := mapNode umap)
+  obtain ⟨r', h1, h2⟩ := mapRoots_spec (umap := umap)
     (P := fun u r => m2.tbl.Mem r ∧ ∀ a, den m2.tbl r a = evalL f.succ lm (f.vars.length + 1) u a)
-    f.roots hr.some (by
+    f.roots (by
       intro u hu
-      obtain ⟨h1, e, he, hid⟩ := hr.mem u hu
+      by_cases h1 : u.natAbs = 1
+      · refine ⟨u, by simp [mapNode, h1], Or.inl h1, ?_⟩
+        intro a; rw [dmp_den_term _ _ _ h1, evalL_term _ _ _ _ _ h1]
+      rcases hr u hu with h1' | ⟨e, he, hid⟩
+      · exact absurd h1' h1
       have hc' := A2 e he (by omega)
       rw [hid, TreeMap.contains_eq_isSome_getElem?] at hc'
       obtain ⟨v, hv'⟩ := Option.isSome_iff_exists.mp hc'
-      obtain ⟨k1, v0, vm, vf, vl, vd⟩ := U2 _ v hv'
-      refine ⟨if u < 0 then -v else v, by simp [mapNode, hv'], ?_, ?_⟩
+      obtain ⟨k1, vm, vf, vd⟩ := U2 _ v hv'
+      refine ⟨if u < 0 then -v else v, by simp [mapNode, h1, hv'], ?_, ?_⟩
       · by_cases hneg : u < 0
         · rw [if_pos hneg]; exact mem_neg vm
         · rw [if_neg hneg]; exact vm
@@ -520,10 +466,9 @@ theorem loadPickle_core (hF : DmpFoaSpec) (f : PickleFile) (levels : Bool) (lm :
           rw [hu])
   exact ⟨r', m2, by rw [h1], I2, F2, X2, h2⟩
 
-
 /-! ### the variables: `add_var` in `_load_pickle` -/
 
-theorem addVar_cases {var : String} {lvl : Option Int} {m m' : Mgr} {j : Nat}
+theorem dmp_addVar_cases {var : String} {lvl : Option Int} {m m' : Mgr} {j : Nat}
     (h : addVar var lvl m = (.ok j, m')) :
     (m.tbl.vars[var]? = some j ∧ m' = m ∧ (∀ l, lvl = some l → l = (j : Int))) ∨
     (m.tbl.vars[var]? = none ∧ m.tbl.l2v[j]? = none ∧ lvl.getD (m.nvars : Int) = (j : Int) ∧
@@ -562,17 +507,99 @@ theorem addVar_cases {var : String} {lvl : Option Int} {m m' : Mgr} {j : Nat}
 /-- `vars` and `_level_to_var` are inverse of each other -/
 def DmpVarsBij (t : Tbl) : Prop := ∀ (v : String) (l : Nat), t.vars[v]? = some l ↔ t.l2v[l]? = some v
 
-/-- `add_var` keeps the manager invariant (part of C14's `addVar_spec`) -/
-def AddVarInv : Prop :=
-  ∀ (m : Mgr) (var : String) (lvl : Option Int) (j : Nat) (m' : Mgr),
-    Inv m → addVar var lvl m = (.ok j, m') → Inv m'
+/-- the invariant reads the variable tables only through their size: one more variable,
+same nodes, same counters -/
+theorem Inv.grow {m m' : Mgr} (hI : Inv m) (hs : m'.tbl.succ = m.tbl.succ)
+    (hn : m'.tbl.nvars = m.tbl.nvars + 1) (hp : m'.pred = m.pred) (hr : m'.ref = m.ref)
+    (hf : m'.minFree = m.minFree) (hc : m'.cache = m.cache) : Inv m' := by
+  have hW := hI.wf.toWF
+  have hnode : ∀ k, m'.tbl.node? k = m.tbl.node? k := fun k => by simp [Tbl.node?, hs]
+  have hmem : ∀ u, m'.tbl.Mem u ↔ m.tbl.Mem u := fun u => by simp [Tbl.Mem, hnode]
+  have hden : ∀ u, m.tbl.Mem u → ∀ a, den m'.tbl u a = den m.tbl u a := by
+    intro u hu a
+    unfold den
+    rw [hn, denF_succ_eq (t := m.tbl) (t' := m'.tbl) hs]
+    exact (denF_stable m.tbl hW (m.tbl.nvars + 1) u a hu (by omega)).symm
+  have hlv : ∀ u : Int, m.tbl.levelOf u ≤ m'.tbl.levelOf u ∧
+      (u.natAbs ≠ 1 → m.tbl.Mem u → m'.tbl.levelOf u = m.tbl.levelOf u) := by
+    intro u
+    unfold Tbl.levelOf
+    by_cases h1 : u.natAbs = 1
+    · simp only [h1, if_true]
+      exact ⟨by omega, fun h => absurd rfl h⟩
+    · simp only [h1, if_false, hnode]
+      cases hh : m.tbl.node? u.natAbs with
+      | none =>
+        simp only
+        refine ⟨by omega, fun _ hm => ?_⟩
+        rcases hm with hm | hm
+        · exact absurd hm h1
+        · rw [hh] at hm; cases hm
+      | some n => simp
+  have hwf : WFU m'.tbl := by
+    refine ⟨⟨?_, ?_, ?_, ?_, ?_, ?_, ?_, ?_⟩, ?_⟩
+    · intro k n hk; rw [hnode] at hk; have := hW.lvl_lt _ _ hk; omega
+    · intro k n hk; rw [hnode] at hk; exact (hmem _).mpr (hW.lo_mem _ _ hk)
+    · intro k n hk; rw [hnode] at hk; exact (hmem _).mpr (hW.hi_mem _ _ hk)
+    · intro k n hk; rw [hnode] at hk; have := hW.lo_lt _ _ hk; have := (hlv n.lo).1; omega
+    · intro k n hk; rw [hnode] at hk; have := hW.hi_lt _ _ hk; have := (hlv n.hi).1; omega
+    · intro k n hk; rw [hnode] at hk; exact hW.ge_two _ _ hk
+    · intro k n hk; rw [hnode] at hk; exact hW.hi_pos _ _ hk
+    · intro k n hk; rw [hnode] at hk; exact hW.lo_ne_hi _ _ hk
+    · intro k k' n hk hk'; rw [hnode] at hk hk'; exact hI.wf.unique _ _ _ hk hk'
+  refine ⟨hwf, ?_, by rw [hf]; exact hI.freeGe, by rw [hf, hnode]; exact hI.free,
+    by rw [hr]; exact hI.refOne, ?_, ?_⟩
+  · intro n u; rw [hp, hnode]; exact hI.pred n u
+  · intro u n hu; rw [hnode] at hu; rw [hr]; exact hI.refDom u n hu
+  · intro g u v w hcw
+    rw [hc] at hcw
+    have he := hI.cache g u v w hcw
+    refine ⟨he.gnt, (hmem _).mpr he.mg, (hmem _).mpr he.mu, (hmem _).mpr he.mv, (hmem _).mpr he.mw, ?_, ?_⟩
+    · have hg := (hlv g).2 he.gnt he.mg
+      have h1 := (hlv u).1
+      have h2 := (hlv v).1
+      have h3 := (hlv w).1
+      have hgl : m.tbl.levelOf g < m.tbl.nvars := by
+        rcases he.mg with h | h
+        · exact absurd h he.gnt
+        · obtain ⟨n, hnn⟩ := Option.isSome_iff_exists.mp h
+          have : m.tbl.levelOf g = n.lvl := by simp [Tbl.levelOf, he.gnt, hnn]
+          rw [this]; exact hW.lvl_lt _ _ hnn
+      have hl := he.lvl
+      have hu' : m'.tbl.levelOf u = m.tbl.levelOf u ∨ m.tbl.levelOf u = m.tbl.nvars := by
+        by_cases c : u.natAbs = 1
+        · right; simp [Tbl.levelOf, c]
+        · left; exact (hlv u).2 c he.mu
+      have hv' : m'.tbl.levelOf v = m.tbl.levelOf v ∨ m.tbl.levelOf v = m.tbl.nvars := by
+        by_cases c : v.natAbs = 1
+        · right; simp [Tbl.levelOf, c]
+        · left; exact (hlv v).2 c he.mv
+      omega
+    · intro a
+      rw [hden w he.mw, hden g he.mg, hden u he.mu, hden v he.mv]; exact he.den a
+
+/-- `add_var` keeps the manager invariant — also when it is given a free level that is not
+the next one (the transient gaps of `levels=True`, F7) -/
+theorem addVar_inv {m m' : Mgr} {var : String} {lvl : Option Int} {j : Nat} (hI : Inv m)
+    (h : addVar var lvl m = (.ok j, m')) : Inv m' := by
+  rcases dmp_addVar_cases h with ⟨_, h2, _⟩ | ⟨h1, _, _, h4⟩
+  · subst h2; exact hI
+  · subst h4
+    refine hI.grow rfl ?_ rfl rfl rfl rfl
+    show (m.tbl.vars.insert var j).size = m.tbl.vars.size + 1
+    rw [TreeMap.size_insert]
+    have : ¬ var ∈ m.tbl.vars := by
+      intro hc
+      rw [TreeMap.mem_iff_isSome_getElem?, h1] at hc
+      cases hc
+    simp [this]
 
 theorem addVar_facts {var : String} {lvl : Option Int} {m m' : Mgr} {j : Nat}
     (h : addVar var lvl m = (.ok j, m')) (hb : DmpVarsBij m.tbl) :
     DmpVarsBij m'.tbl ∧ m'.tbl.vars[var]? = some j ∧
     (∀ (v : String) (l : Nat), m.tbl.vars[v]? = some l → m'.tbl.vars[v]? = some l) ∧ m'.ctx = m.ctx ∧
     m'.tbl.succ = m.tbl.succ ∧ (∀ i : Nat, lvl = some (i : Int) → j = i) := by
-  rcases addVar_cases h with ⟨h1, h2, h3⟩ | ⟨h1, h2, h3, h4⟩
+  rcases dmp_addVar_cases h with ⟨h1, h2, h3⟩ | ⟨h1, h2, h3, h4⟩
   · subst h2
     exact ⟨hb, h1, fun _ _ h => h, rfl, rfl, fun i hi => by have := h3 _ hi; omega⟩
   · subst h4
@@ -602,7 +629,7 @@ theorem addVar_facts {var : String} {lvl : Option Int} {m m' : Mgr} {j : Nat}
     · intro i hi; subst hi; simp at h3; omega
 
 /-- the first loop of `_load_pickle`, for any property `J` that `add_var` preserves
-(`Inv` under `AddVarInv`; "no nodes yet" for a fresh manager) -/
+(`Inv` itself, by `addVar_inv`) -/
 theorem loadVars_spec (J : Mgr → Prop) (levels : Bool) (n : Nat) :
     ∀ (vs : List (String × Nat)),
       (∀ (m : Mgr) (var : String) (i : Nat) (j : Nat) (m' : Mgr), (var, i) ∈ vs → J m →
@@ -693,6 +720,7 @@ theorem Forall2.imp {α β : Type} {R S : α → β → Prop} (h : ∀ a b, R a 
 theorem RootsRel.imp {P Q : Int → Int → Prop} (h : ∀ u r, P u r → Q u r) {a b : Roots}
     (hr : RootsRel P a b) : RootsRel Q a b := by
   cases hr with
+  | none => exact .none
   | list hl => exact .list (hl.imp h)
   | dict hd => exact .dict (hd.imp fun x y hxy => ⟨hxy.1, h _ _ hxy.2⟩)
 
@@ -730,6 +758,7 @@ def evalPickle (f : PickleFile) (u : Int) (α : String → Bool) : Bool :=
 
 /-- well-formed content of a pickle file -/
 structure PickleWF (f : PickleFile) : Prop where
+  bound : ∀ var i, (var, i) ∈ f.vars → i < f.vars.length
   succ : SuccWF f.succ f.vars.length
   names : ∀ var i, (var, i) ∈ f.vars → f.nameAt i = some var
   lvls : ∀ k e, PEntry.find f.succ k = some e → k ≠ 1 → ∃ var, (var, e.lvl) ∈ f.vars
@@ -764,51 +793,40 @@ theorem evalL_eq_evalN (f : PickleFile) (lm : List (Nat × Nat)) (t : Tbl) (N : 
 /-- no level gaps: declared levels are below the number of variables (F7 excluded) -/
 def Contig (t : Tbl) : Prop := ∀ (v : String) (l : Nat), t.vars[v]? = some l → l < t.nvars
 
-/-- strictly increasing level map (what `levels=False` needs, F3) -/
-def MonoMap (lm : List (Nat × Nat)) : Prop :=
-  ∀ i i' j j', lm.lookup i = some j → lm.lookup i' = some j' → i < i' → j < j'
+/-- the result of `BDD.load` relative to the content of the file: same container shape
+(an empty list when the file names no roots), every member a node of the receiving manager
+that denotes — as a function of variable NAMES — what the file says -/
+def LoadedFrom (f : PickleFile) (t : Tbl) (roots' : Roots) : Prop :=
+  RootsRel (fun u r => t.Mem r ∧ ∀ α, denBy t r α = evalPickle f u α) f.roots roots'
 
 /-- `BDD.load` on a well-formed file content: if the loader accepts the variables
-(`_load_pickle`'s first loop succeeds), they are declared without level gaps, and the level
-map is increasing (automatic for `levels=True`), then the load succeeds, the manager
-invariant is kept, old nodes are untouched, and the returned container has the shape of the
-file's `roots` with every member denoting — as a function of variable NAMES — what the
-file says. -/
-theorem pickle_load_of_specs (hF : DmpFoaSpec) (J : Mgr → Prop) (f : PickleFile) (levels : Bool)
-    (hA : ∀ (m : Mgr) (var : String) (i : Nat) (j : Nat) (m' : Mgr), (var, i) ∈ f.vars → J m →
-      addVar var (if levels = true then some (i : Int) else none) m = (.ok j, m') → J m')
-    (hJI : ∀ m, J m → Inv m)
-    (m : Mgr) (hI : J m) (hb : DmpVarsBij m.tbl) (hc : m.ctx = false)
-    (hwf : PickleWF f) (hr : RootsOK f)
+(`_load_pickle`'s first loop succeeds) and leaves no level gap, the load succeeds, the
+manager invariant is kept, old nodes are untouched, and the result is `LoadedFrom` the file
+— for either value of `levels`, any variable order of the receiving manager, constant
+roots, or no roots. -/
+theorem pickle_load (f : PickleFile) (levels : Bool)
+    (m : Mgr) (hI : Inv m) (hb : DmpVarsBij m.tbl) (hc : m.ctx = false)
+    (hwf : PickleWF f) (hr : RootsResolvable f)
     (lm : List (Nat × Nat)) (m1 : Mgr)
     (hv : loadVars levels f.vars.length f.vars [] m = (.ok lm, m1))
-    (hg : Contig m1.tbl) (hm : levels = false → MonoMap lm) :
+    (hg : Contig m1.tbl) :
     ∃ roots' m', loadPickle f levels m = (.ok roots', m') ∧ Inv m' ∧ DmpVarsBij m'.tbl ∧
-      m'.ctx = false ∧ (∀ u n, m.tbl.node? u = some n → m'.tbl.node? u = some n) ∧
-      RootsRel (fun u r => m'.tbl.Mem r ∧ ∀ α, denBy m'.tbl r α = evalPickle f u α) f.roots roots' := by
-  obtain ⟨J1, B1, C1, S1, M1, R1, D1, _, L1⟩ :=
-    loadVars_spec J levels f.vars.length f.vars hA [] m lm m1 hv hI hb
-  have I1 := hJI m1 J1
+      Contig m'.tbl ∧ m'.ctx = false ∧ (∀ u n, m.tbl.node? u = some n → m'.tbl.node? u = some n) ∧
+      LoadedFrom f m'.tbl roots' := by
+  obtain ⟨I1, B1, C1, S1, M1, R1, D1, _, L1⟩ :=
+    loadVars_spec Inv levels f.vars.length f.vars (fun m var i j m' _ hJ h => addVar_inv hJ h)
+      [] m lm m1 hv hI hb
   have hl : LMOK f.succ lm m1.nvars := by
     constructor
-    · intro k e he h1
-      obtain ⟨var, hvar⟩ := hwf.lvls k e he h1
-      obtain ⟨j, hj⟩ := Option.isSome_iff_exists.mp (D1 var e.lvl hvar)
-      refine ⟨j, hj, ?_⟩
-      rcases R1 _ _ hj with h | ⟨v, _, hv'⟩
-      · simp at h
-      · exact hg v j hv'
-    · cases levels with
-      | false => exact hm rfl
-      | true =>
-        intro i i' j j' h1 h2 hlt
-        rcases L1 rfl i j h1 with h | h
-        · simp at h
-        rcases L1 rfl i' j' h2 with h' | h'
-        · simp at h'
-        omega
+    intro k e he h1
+    obtain ⟨var, hvar⟩ := hwf.lvls k e he h1
+    obtain ⟨j, hj⟩ := Option.isSome_iff_exists.mp (D1 var e.lvl hvar)
+    refine ⟨j, hj, ?_⟩
+    rcases R1 _ _ hj with h | ⟨v, _, hv'⟩
+    · simp at h
+    · exact hg v j hv'
   obtain ⟨roots', m', e1, I2, F2, X2, RR⟩ :=
-    loadPickle_core hF f levels lm m m1 hv I1 (C1.trans hc) hwf.succ hl hr
+    loadPickle_core f levels lm m m1 hv I1 (C1.trans hc) hwf.succ hl hr
   have hn : NameOK f lm m'.tbl := by
     intro i j hij
     rcases R1 _ _ hij with h | ⟨v, hv1, hv2⟩
@@ -816,7 +834,12 @@ theorem pickle_load_of_specs (hF : DmpFoaSpec) (J : Mgr → Prop) (f : PickleFil
     · exact ⟨v, hwf.names v i hv1, by rw [F2.l2v]; exact (B1 v j).mp hv2⟩
   have B2 : DmpVarsBij m'.tbl := by
     intro v l; rw [F2.vars, F2.l2v]; exact B1 v l
-  refine ⟨roots', m', e1, I2, B2, F2.ctx.trans (C1.trans hc), ?_, ?_⟩
+  have G2 : Contig m'.tbl := by
+    intro v l h
+    rw [F2.vars] at h
+    have := hg v l h
+    rw [← X2.nvars]; exact this
+  refine ⟨roots', m', e1, I2, B2, G2, F2.ctx.trans (C1.trans hc), ?_, ?_⟩
   · intro u n hn'
     apply X2.nodes
     unfold Tbl.node? at hn' ⊢
@@ -829,6 +852,52 @@ theorem pickle_load_of_specs (hF : DmpFoaSpec) (J : Mgr → Prop) (f : PickleFil
       rw [h2, evalL_eq_evalN f lm m'.tbl _ hl hn]
     exact RR.imp conv
 
+/-- C12 for `BDD.load` at FULL strength: every well-formed pickle content whose variables
+the loader accepts (no level gap left) loads without error into a manager satisfying the
+invariant, keeps the invariant, and returns the file's roots in the same container shape
+denoting, by variable name, what the file says.  No condition on `levels`, on the variable
+order of the receiving manager, on constant roots, or on `roots` being present. -/
+def pickle_load_statement : Prop :=
+  ∀ (f : PickleFile) (levels : Bool) (tgt : Mgr), PickleWF f → RootsResolvable f →
+    Inv tgt → DmpVarsBij tgt.tbl → tgt.ctx = false →
+    ∀ lm m1, loadVars levels f.vars.length f.vars [] tgt = (.ok lm, m1) → Contig m1.tbl →
+    ∃ roots' m', loadPickle f levels tgt = (.ok roots', m') ∧ Inv m' ∧ LoadedFrom f m'.tbl roots'
+
+/-- the repaired code satisfies the full statement -/
+theorem pickle_load_statement_holds : pickle_load_statement := by
+  intro f levels tgt hwf hr hI hb hc lm m1 hv hg
+  obtain ⟨r, m', e, I, _, _, _, _, L⟩ := pickle_load f levels tgt hI hb hc hwf hr lm m1 hv hg
+  exact ⟨r, m', e, I, L⟩
+
+/-! #### `levels=False`: the loader accepts every variable, whatever the order of the manager -/
+
+theorem OrderOK.bij {t : Tbl} (h : OrderOK t) : DmpVarsBij t := h.inv
+theorem OrderOK.contig {t : Tbl} (h : OrderOK t) : Contig t := h.lt
+
+/-- with `levels=False` the first loop of `_load_pickle` cannot fail on a manager whose
+order tables are consistent: known names keep their level, new names go to the bottom -/
+theorem loadVars_false_total (n : Nat) :
+    ∀ (vs : List (String × Nat)) (lm : List (Nat × Nat)) (m : Mgr), Inv m → OrderOK m.tbl →
+      (∀ var i, (var, i) ∈ vs → i < n) →
+      ∃ lm' m', loadVars false n vs lm m = (.ok lm', m') ∧ OrderOK m'.tbl := by
+  intro vs
+  induction vs with
+  | nil => intro lm m _ hO _; exact ⟨lm, m, rfl, hO⟩
+  | cons x rest ih =>
+    intro lm m hI hO hb
+    obtain ⟨var, i⟩ := x
+    have hi : i < n := hb var i List.mem_cons_self
+    have hb' : ∀ v k, (v, k) ∈ rest → k < n := fun v k hk => hb v k (List.mem_cons_of_mem _ hk)
+    rw [loadVars]
+    simp only [hi, not_true_eq_false, if_false, Bool.false_eq_true]
+    cases hex : m.tbl.vars[var]? with
+    | some l =>
+      rw [(addVar_existing m var l hex).1]
+      exact ih _ m hI hO hb'
+    | none =>
+      rw [addVar_new m var hex hO.l2v_none]
+      obtain ⟨I', O', _⟩ := addVar_new_spec m hI hO var hex _ rfl
+      exact ih _ _ I' O' hb'
 
 /-! ### `descendants` is closed under successors -/
 
@@ -1174,7 +1243,11 @@ theorem Stores.wf {t : Tbl} {nodes : List Nat} {f : PickleFile} (hst : Stores t 
       refine ⟨Or.inr (by simp [hf]), ?_⟩
       have : t.levelOf c = n.lvl := levelOf_node t c n h1 hn'
       simp [flevel, h1, hf, ← this, hl]
-  refine ⟨⟨?_⟩, (nameAt_of_vars hv hvars).1, ?_⟩
+  refine ⟨?_, ⟨?_⟩, (nameAt_of_vars hv hvars).1, ?_⟩
+  · intro var i hmem
+    rw [hlen]
+    rw [hvars, TreeMap.mem_toList_iff_getElem?_eq_some] at hmem
+    exact hv.contig var i hmem
   · intro k e he h1
     obtain ⟨hk, n, hn', rfl⟩ := hfind k e he h1
     obtain ⟨n', hn'', clo, chi⟩ := hcl k hk h1
@@ -1249,22 +1322,20 @@ theorem dumpPickle_eval {m : Mgr} (hI : Inv m) (hv : DmpVarsOK m.tbl) {roots : R
   intro u hu
   exact hst.eval hI.wf.toWF hv α u (hr u hu)
 
-theorem dumpPickle_rootsOK {m : Mgr} (hI : Inv m) {roots : Roots} {f : PickleFile}
-    (h : dumpPickle m roots = .ok f) (hsome : roots ≠ .none)
-    (hnc : ∀ u ∈ roots.values, u.natAbs ≠ 1) : RootsOK f := by
-  obtain ⟨nodes, hn, hin, hout⟩ := dump_find h
-  obtain ⟨_, hr, _⟩ := dumpPickle_parts h
-  obtain ⟨_, hroots⟩ := dumpNodes_closed hI.wf.toWF hn
-  refine ⟨by rw [hr]; exact hsome, ?_⟩
+theorem stores_resolvable {t : Tbl} {nodes : List Nat} {f : PickleFile} (hst : Stores t nodes f)
+    (hr : ∀ u ∈ f.roots.values, u.natAbs = 1 ∨ u.natAbs ∈ nodes) : RootsResolvable f := by
   intro u hu
-  rw [hr] at hu
-  have h1 := hnc u hu
-  refine ⟨h1, ?_⟩
-  rcases hroots u hu with h' | h'
-  · exact absurd h' h1
-  · obtain ⟨n, _, hf⟩ := hin _ h' h1
-    exact ⟨_, List.mem_of_find?_eq_some hf, rfl⟩
+  by_cases h1 : u.natAbs = 1
+  · exact Or.inl h1
+  · rcases hr u hu with h | h
+    · exact absurd h h1
+    · obtain ⟨n, _, hf⟩ := hst.inn _ h h1
+      exact Or.inr ⟨_, List.mem_of_find?_eq_some hf, rfl⟩
 
+theorem dumpPickle_resolvable {m : Mgr} (hI : Inv m) {roots : Roots} {f : PickleFile}
+    (h : dumpPickle m roots = .ok f) : RootsResolvable f := by
+  obtain ⟨nodes, hst, hr⟩ := dumpPickle_stores hI h
+  exact stores_resolvable hst (by rw [roots_container h]; exact hr)
 
 /-! ### pickle round trips -/
 
@@ -1280,6 +1351,7 @@ theorem Forall2.imp_mem {α β : Type} {R S : α → β → Prop} :
 theorem RootsRel.imp_mem {P Q : Int → Int → Prop} {a b : Roots} (hr : RootsRel P a b)
     (h : ∀ u ∈ a.values, ∀ r, P u r → Q u r) : RootsRel Q a b := by
   cases hr with
+  | none => exact .none
   | list hl => exact .list (hl.imp_mem h)
   | dict hd =>
     refine .dict (hd.imp_mem ?_)
@@ -1287,35 +1359,97 @@ theorem RootsRel.imp_mem {P Q : Int → Int → Prop} {a b : Roots} (hr : RootsR
     exact ⟨hxy.1, h _ (by simp [Roots.values]; exact ⟨x.1, hx⟩) _ hxy.2⟩
 
 /-- the result of a load, compared with the functions that were dumped: same container
-shape (list positions / dict keys), each member a node of the receiving manager that
-denotes — by variable name — the dumped function -/
+shape (list positions / dict keys; an empty list when no roots were named), each member a
+node of the receiving manager that denotes — by variable name — the dumped function -/
 def LoadedAs (src : Tbl) (roots : Roots) (tgt : Tbl) (roots' : Roots) : Prop :=
   RootsRel (fun u r => tgt.Mem r ∧ ∀ α, denBy tgt r α = denBy src u α) roots roots'
 
-/-- C12, pickle, general form: dump `roots` of `src`, load the content into `tgt`.
-Hypotheses beyond the invariants: the roots are a container (F2) of non-constant
-references (F11); the loader accepts the variables and leaves no level gap (F7); for
-`levels=False` the level map is increasing (F3). -/
-theorem pickle_roundtrip_of_specs (hF : DmpFoaSpec) (hA : AddVarInv)
-    (src : Mgr) (hIs : Inv src) (hvs : DmpVarsOK src.tbl)
-    (roots : Roots) (hsome : roots ≠ .none) (hnc : ∀ u ∈ roots.values, u.natAbs ≠ 1)
-    (f : PickleFile) (hd : dumpPickle src roots = .ok f)
-    (levels : Bool) (tgt : Mgr) (hI : Inv tgt) (hb : DmpVarsBij tgt.tbl) (hc : tgt.ctx = false)
-    (lm : List (Nat × Nat)) (m1 : Mgr)
-    (hv : loadVars levels f.vars.length f.vars [] tgt = (.ok lm, m1))
-    (hg : Contig m1.tbl) (hm : levels = false → MonoMap lm) :
-    ∃ roots' m', loadPickle f levels tgt = (.ok roots', m') ∧ Inv m' ∧ DmpVarsBij m'.tbl ∧
-      (∀ u n, tgt.tbl.node? u = some n → m'.tbl.node? u = some n) ∧
-      LoadedAs src.tbl roots m'.tbl roots' := by
-  obtain ⟨roots', m', e, I, B, _, N, R⟩ :=
-    pickle_load_of_specs hF Inv f levels (fun m var _ j m' _ hJ h => hA m var _ j m' hJ h) (fun _ h => h) tgt hI hb hc (dumpPickle_wf hIs hvs hd)
-      (dumpPickle_rootsOK hIs hd hsome hnc) lm m1 hv hg hm
-  refine ⟨roots', m', e, I, B, N, ?_⟩
-  rw [roots_container hd] at R
-  apply R.imp_mem
+theorem OrderOK.toDmp {t : Tbl} (h : OrderOK t) : DmpVarsOK t :=
+  ⟨h.inv, h.lt, fun l hl => by obtain ⟨v, hv⟩ := h.total l hl; simp [hv]⟩
+
+theorem loadedAs_of_loadedFrom {src : Mgr} (hIs : Inv src) (hvs : DmpVarsOK src.tbl)
+    {roots : Roots} {f : PickleFile} (hd : dumpPickle src roots = .ok f) {t : Tbl} {roots' : Roots}
+    (h : LoadedFrom f t roots') : LoadedAs src.tbl roots t roots' := by
+  unfold LoadedFrom at h
+  rw [roots_container hd] at h
+  apply h.imp_mem
   intro u hu r ⟨h1, h2⟩
   exact ⟨h1, fun α => by rw [h2 α, dumpPickle_eval hIs hvs hd α u hu]⟩
 
+/-- C12, pickle, general form: dump `roots` (list, dict or `None`; constants allowed) of
+`src`, load the content into `tgt` with either value of `levels`, whatever the variable
+order of `tgt`.  The only hypotheses beyond the invariants: the loader accepts the
+variables (it may refuse with `levels=True`) and leaves no level gap (F7). -/
+theorem pickle_roundtrip
+    (src : Mgr) (hIs : Inv src) (hvs : DmpVarsOK src.tbl)
+    (roots : Roots) (f : PickleFile) (hd : dumpPickle src roots = .ok f)
+    (levels : Bool) (tgt : Mgr) (hI : Inv tgt) (hb : DmpVarsBij tgt.tbl) (hc : tgt.ctx = false)
+    (lm : List (Nat × Nat)) (m1 : Mgr)
+    (hv : loadVars levels f.vars.length f.vars [] tgt = (.ok lm, m1))
+    (hg : Contig m1.tbl) :
+    ∃ roots' m', loadPickle f levels tgt = (.ok roots', m') ∧ Inv m' ∧ DmpVarsBij m'.tbl ∧
+      (∀ u n, tgt.tbl.node? u = some n → m'.tbl.node? u = some n) ∧
+      LoadedAs src.tbl roots m'.tbl roots' := by
+  obtain ⟨roots', m', e, I, B, _, _, N, R⟩ :=
+    pickle_load f levels tgt hI hb hc (dumpPickle_wf hIs hvs hd) (dumpPickle_resolvable hIs hd)
+      lm m1 hv hg
+  exact ⟨roots', m', e, I, B, N, loadedAs_of_loadedFrom hIs hvs hd R⟩
+
+/-- C12, pickle, `levels=False`: into ANY manager with a consistent order — other variable
+order, extra variables, missing variables — the load cannot be refused and returns the
+dumped functions.  (The case the fix 8564934 repaired.) -/
+theorem pickle_roundtrip_any_order
+    (src : Mgr) (hIs : Inv src) (hvs : DmpVarsOK src.tbl)
+    (roots : Roots) (f : PickleFile) (hd : dumpPickle src roots = .ok f)
+    (tgt : Mgr) (hI : Inv tgt) (hO : OrderOK tgt.tbl) (hc : tgt.ctx = false) :
+    ∃ roots' m', loadPickle f false tgt = (.ok roots', m') ∧ Inv m' ∧ OrderOK m'.tbl ∧
+      (∀ u n, tgt.tbl.node? u = some n → m'.tbl.node? u = some n) ∧
+      LoadedAs src.tbl roots m'.tbl roots' := by
+  have hwf := dumpPickle_wf hIs hvs hd
+  obtain ⟨lm, m1, hv, O1⟩ := loadVars_false_total f.vars.length f.vars [] tgt hI hO hwf.bound
+  obtain ⟨roots', m', e, I, B, G, _, N, R⟩ :=
+    pickle_load f false tgt hI hO.bij hc hwf (dumpPickle_resolvable hIs hd) lm m1 hv O1.contig
+  obtain ⟨_, _, C1, _⟩ := loadVars_spec Inv false f.vars.length f.vars
+    (fun m var i j m' _ hJ h => addVar_inv hJ h) [] tgt lm m1 hv hI hO.bij
+  refine ⟨roots', m', e, I, ?_, N, loadedAs_of_loadedFrom hIs hvs hd R⟩
+  -- the order tables of `m'` are those of `m1` (only nodes were added)
+  have hfr : m'.tbl.vars = m1.tbl.vars ∧ m'.tbl.l2v = m1.tbl.l2v ∧ m'.tbl.nvars = m1.tbl.nvars := by
+    unfold loadPickle at e
+    rw [hv] at e
+    dsimp only at e
+    cases hla : loadAll f.succ lm (f.vars.length + f.succ.length + 2) f.succ {} m1 with
+    | mk res m2 =>
+      rw [hla] at e
+      cases res with
+      | error er => simp at e
+      | ok umap =>
+        simp only [Prod.mk.injEq] at e
+        obtain ⟨_, rfl⟩ := e
+        have hl : LMOK f.succ lm m1.nvars := by
+          constructor
+          intro k en he h1
+          obtain ⟨var, hvar⟩ := hwf.lvls k en he h1
+          obtain ⟨_, _, _, _, _, R1, D1, _⟩ := loadVars_spec Inv false f.vars.length f.vars
+            (fun m var i j m' _ hJ h => addVar_inv hJ h) [] tgt lm m1 hv hI hO.bij
+          obtain ⟨j, hj⟩ := Option.isSome_iff_exists.mp (D1 var en.lvl hvar)
+          refine ⟨j, hj, ?_⟩
+          rcases R1 _ _ hj with h | ⟨v, _, hv'⟩
+          · simp at h
+          · exact O1.lt v j hv'
+        obtain ⟨I1, _⟩ := loadVars_spec Inv false f.vars.length f.vars
+          (fun m var i j m' _ hJ h => addVar_inv hJ h) [] tgt lm m1 hv hI hO.bij
+        obtain ⟨umap', m2', e2, _, F2, X2, _⟩ :=
+          loadAll_spec hwf.succ hl (fuel := f.vars.length + f.succ.length + 2) (by omega) f.succ {} m1
+            (fun _ h => h) I1 (C1.trans hc) rfl (UOK.empty _ _ _ _)
+        rw [hla] at e2
+        simp only [Prod.mk.injEq] at e2
+        obtain ⟨_, rfl⟩ := e2
+        exact ⟨F2.vars, F2.l2v, X2.nvars.symm⟩
+  obtain ⟨hv1, hv2, hv3⟩ := hfr
+  refine ⟨?_, ?_, ?_⟩
+  · intro v i; rw [hv1, hv2]; exact O1.inv v i
+  · intro v i h; rw [hv1] at h; rw [hv3]; exact O1.lt v i h
+  · intro i hi; rw [hv3] at hi; rw [hv2]; exact O1.total i hi
 
 /-- when the receiving manager already declares the variables at the levels of the file,
 the first loop of `_load_pickle` changes nothing -/
@@ -1339,11 +1473,10 @@ theorem loadVars_declared (levels : Bool) (n : Nat) :
     exact h'
 
 /-- C12, pickle, into a manager that already declares the variables at the same levels
-(in particular: into the SAME manager), either value of `levels`.  Only `DmpFoaSpec` is used. -/
-theorem pickle_roundtrip_declared (hF : DmpFoaSpec)
+(in particular: into the SAME manager), either value of `levels` -/
+theorem pickle_roundtrip_declared
     (src : Mgr) (hIs : Inv src) (hvs : DmpVarsOK src.tbl)
-    (roots : Roots) (hsome : roots ≠ .none) (hnc : ∀ u ∈ roots.values, u.natAbs ≠ 1)
-    (f : PickleFile) (hd : dumpPickle src roots = .ok f)
+    (roots : Roots) (f : PickleFile) (hd : dumpPickle src roots = .ok f)
     (levels : Bool) (tgt : Mgr) (hI : Inv tgt) (hb : DmpVarsBij tgt.tbl) (hg : Contig tgt.tbl)
     (hc : tgt.ctx = false)
     (hdecl : ∀ (var : String) (i : Nat), src.tbl.vars[var]? = some i → tgt.tbl.vars[var]? = some i) :
@@ -1357,44 +1490,16 @@ theorem pickle_roundtrip_declared (hF : DmpFoaSpec)
     rw [hvars, TreeMap.mem_toList_iff_getElem?_eq_some] at h
     exact ⟨hdecl var i h, by rw [hlen]; exact hvs.contig var i h⟩
   obtain ⟨lm, hv⟩ := loadVars_declared levels f.vars.length f.vars [] tgt hmem
-  have hJ : ∀ (m : Mgr) (var : String) (i j : Nat) (m' : Mgr), (var, i) ∈ f.vars → m = tgt →
-      addVar var (if levels = true then some (i : Int) else none) m = (.ok j, m') → m' = tgt := by
-    intro m var i j m' hin hm hav
-    subst hm
-    rcases addVar_cases hav with ⟨_, h2, _⟩ | ⟨h1, _⟩
-    · exact h2
-    · rw [(hmem var i hin).1] at h1; cases h1
-  obtain ⟨_, _, _, _, _, R1, _⟩ :=
-    loadVars_spec (· = tgt) levels f.vars.length f.vars hJ [] tgt lm tgt hv rfl hb
-  have hmono : MonoMap lm := by
-    intro i i' j j' h1 h2 hlt
-    rcases R1 _ _ h1 with h | ⟨v, hv1, hv2⟩
-    · simp at h
-    rcases R1 _ _ h2 with h | ⟨v', hv1', hv2'⟩
-    · simp at h
-    rw [(hmem v i hv1).1] at hv2
-    rw [(hmem v' i' hv1').1] at hv2'
-    cases hv2; cases hv2'
-    exact hlt
-  obtain ⟨roots', m', e, I, B, _, N, R⟩ :=
-    pickle_load_of_specs hF (· = tgt) f levels hJ (fun _ h => h ▸ hI) tgt rfl hb hc
-      (dumpPickle_wf hIs hvs hd) (dumpPickle_rootsOK hIs hd hsome hnc) lm tgt hv hg (fun _ => hmono)
-  refine ⟨roots', m', e, I, B, N, ?_⟩
-  rw [roots_container hd] at R
-  apply R.imp_mem
-  intro u hu r ⟨h1, h2⟩
-  exact ⟨h1, fun α => by rw [h2 α, dumpPickle_eval hIs hvs hd α u hu]⟩
+  exact pickle_roundtrip src hIs hvs roots f hd levels tgt hI hb hc lm tgt hv hg
 
 /-- loading into the manager the file was dumped from -/
-theorem pickle_roundtrip_same_manager (hF : DmpFoaSpec) (m : Mgr) (hI : Inv m) (hv : DmpVarsOK m.tbl)
-    (hc : m.ctx = false) (roots : Roots) (hsome : roots ≠ .none)
-    (hnc : ∀ u ∈ roots.values, u.natAbs ≠ 1) (f : PickleFile) (hd : dumpPickle m roots = .ok f)
+theorem pickle_roundtrip_same_manager (m : Mgr) (hI : Inv m) (hv : DmpVarsOK m.tbl)
+    (hc : m.ctx = false) (roots : Roots) (f : PickleFile) (hd : dumpPickle m roots = .ok f)
     (levels : Bool) :
     ∃ roots' m', loadPickle f levels m = (.ok roots', m') ∧ Inv m' ∧ DmpVarsBij m'.tbl ∧
       (∀ u n, m.tbl.node? u = some n → m'.tbl.node? u = some n) ∧
       LoadedAs m.tbl roots m'.tbl roots' :=
-  pickle_roundtrip_declared hF m hI hv roots hsome hnc f hd levels m hI hv.bij hv.contig hc
-    (fun _ _ h => h)
+  pickle_roundtrip_declared m hI hv roots f hd levels m hI hv.bij hv.contig hc (fun _ _ h => h)
 
 /-- a manager without nodes (fresh, possibly with variables) -/
 structure NodeFree (m : Mgr) : Prop where
@@ -1413,35 +1518,6 @@ theorem NodeFree.inv {m : Mgr} (h : NodeFree m) : Inv m := by
     | skip
   · intro n u; rw [h.pred, hn]; simp
   · intro g u v w hc; rw [h.cache] at hc; cases hc
-
-theorem NodeFree.addVar {m m' : Mgr} {var : String} {lvl : Option Int} {j : Nat} (h : NodeFree m)
-    (hav : addVar var lvl m = (.ok j, m')) : NodeFree m' := by
-  rcases addVar_cases hav with ⟨_, h2, _⟩ | ⟨_, _, _, h4⟩
-  · subst h2; exact h
-  · subst h4; exact ⟨h.succ, h.pred, h.cache, h.free, h.ref1⟩
-
-/-- C12, pickle, into a FRESH manager (no nodes; variables, if any, compatible with what the
-loader declares).  Only `DmpFoaSpec` is used. -/
-theorem pickle_roundtrip_fresh (hF : DmpFoaSpec)
-    (src : Mgr) (hIs : Inv src) (hvs : DmpVarsOK src.tbl)
-    (roots : Roots) (hsome : roots ≠ .none) (hnc : ∀ u ∈ roots.values, u.natAbs ≠ 1)
-    (f : PickleFile) (hd : dumpPickle src roots = .ok f)
-    (levels : Bool) (tgt : Mgr) (hN : NodeFree tgt) (hb : DmpVarsBij tgt.tbl) (hc : tgt.ctx = false)
-    (lm : List (Nat × Nat)) (m1 : Mgr)
-    (hv : loadVars levels f.vars.length f.vars [] tgt = (.ok lm, m1))
-    (hg : Contig m1.tbl) (hm : levels = false → MonoMap lm) :
-    ∃ roots' m', loadPickle f levels tgt = (.ok roots', m') ∧ Inv m' ∧ DmpVarsBij m'.tbl ∧
-      LoadedAs src.tbl roots m'.tbl roots' := by
-  obtain ⟨roots', m', e, I, B, _, _, R⟩ :=
-    pickle_load_of_specs hF NodeFree f levels (fun m var _ j m' _ hJ h => hJ.addVar h)
-      (fun _ h => h.inv) tgt hN hb hc (dumpPickle_wf hIs hvs hd)
-      (dumpPickle_rootsOK hIs hd hsome hnc) lm m1 hv hg hm
-  refine ⟨roots', m', e, I, B, ?_⟩
-  rw [roots_container hd] at R
-  apply R.imp_mem
-  intro u hu r ⟨h1, h2⟩
-  exact ⟨h1, fun α => by rw [h2 α, dumpPickle_eval hIs hvs hd α u hu]⟩
-
 
 /-! ### whole-manager pickle -/
 
@@ -1710,25 +1786,7 @@ theorem manager_roundtrip (m : Mgr) (hv : DmpVarsOK m.tbl) (hp : PredShape m) :
 
 deriving instance DecidableEq for Except
 
-/-! ### the full statement for file contents, and where the current code falls short -/
-
-/-- the roots of the file are `None`, or a container of references the file can resolve
-(constants included) -/
-def RootsResolvable (f : PickleFile) : Prop :=
-  ∀ u ∈ f.roots.values, u.natAbs = 1 ∨ ∃ e ∈ f.succ, e.id = u.natAbs
-
-/-- C12 for `BDD.load` at FULL strength (what the property text asks): every well-formed
-pickle content whose variables the loader accepts (no level gap left) loads without error
-into a manager satisfying the invariant, keeps the invariant, and — when the file names
-roots — returns them in the same container shape denoting, by variable name, what the file
-says.  No condition on `levels`, on constant roots, or on `roots` being present. -/
-def pickle_load_statement : Prop :=
-  ∀ (f : PickleFile) (levels : Bool) (tgt : Mgr), PickleWF f → RootsResolvable f →
-    Inv tgt → DmpVarsBij tgt.tbl → tgt.ctx = false →
-    ∀ lm m1, loadVars levels f.vars.length f.vars [] tgt = (.ok lm, m1) → Contig m1.tbl →
-    ∃ roots' m', loadPickle f levels tgt = (.ok roots', m') ∧ Inv m' ∧
-      (f.roots ≠ .none →
-        RootsRel (fun u r => m'.tbl.Mem r ∧ ∀ α, denBy m'.tbl r α = evalPickle f u α) f.roots roots')
+/-! ### the inputs on which the tree failed before the fix commits 8564934 / 58a79f8 -/
 
 /-- a pickle of the empty manager written without roots / with the root TRUE -/
 def fileNoRoots : PickleFile := { vars := [], succ := [⟨1, 0, none, none⟩], roots := .none }
@@ -1745,7 +1803,8 @@ theorem wf_terminal_only (r : Roots) : PickleWF { vars := [], succ := [⟨1, 0, 
     simp at hm
     subst hm
     exact this.symm
-  refine ⟨⟨?_⟩, ?_, ?_⟩
+  refine ⟨?_, ⟨?_⟩, ?_, ?_⟩
+  · intro var i h; simp at h
   · intro k e h h1; exact absurd (hf k e h) h1
   · intro var i h; simp at h
   · intro k e h h1; exact absurd (hf k e h) h1
@@ -1767,32 +1826,15 @@ theorem varsOK_empty : DmpVarsOK ({} : Mgr).tbl :=
     have h0 : ({} : Mgr).tbl.nvars = 0 := by decide +kernel
     rw [h0] at h; omega⟩
 
-/-- F2: a pickle written without roots does not load back (`TypeError`) -/
-theorem load_roots_none_raises : (loadPickle fileNoRoots true {}).1 = .error .type := by
+/-- formerly F2: a pickle written without roots loads back as an empty list -/
+theorem load_roots_none_ok : (loadPickle fileNoRoots true {}).1 = .ok (.list []) := by
   decide +kernel
 
-/-- F11: a pickle whose roots include a constant does not load back (`KeyError`) -/
-theorem load_constant_root_raises : (loadPickle fileConstRoot true {}).1 = .error .key := by
+/-- formerly F11: a constant root comes back as itself -/
+theorem load_constant_root_ok : (loadPickle fileConstRoot true {}).1 = .ok (.list [1]) := by
   decide +kernel
 
-theorem pickle_load_statement_false_F2 : ¬ pickle_load_statement := by
-  intro h
-  obtain ⟨r, m', e, _⟩ := h fileNoRoots true {} (wf_terminal_only _) (by intro u hu; simp [fileNoRoots, Roots.values] at hu)
-    Inv.init varsBij_empty rfl [] {} rfl contig_empty
-  have := load_roots_none_raises
-  rw [e] at this
-  cases this
-
-theorem pickle_load_statement_false_F11 : ¬ pickle_load_statement := by
-  intro h
-  obtain ⟨r, m', e, _⟩ := h fileConstRoot true {} (wf_terminal_only _)
-    (by intro u hu; simp [fileConstRoot, Roots.values] at hu; subst hu; exact Or.inl rfl)
-    Inv.init varsBij_empty rfl [] {} rfl contig_empty
-  have := load_constant_root_raises
-  rw [e] at this
-  cases this
-
-/-! #### F3: `levels=False` into another variable order -/
+/-! #### formerly F3: `levels=False` into another variable order -/
 
 /-- the function `b ∧ a` dumped from a manager with order `b < a` -/
 def fileBA : PickleFile :=
@@ -1877,7 +1919,10 @@ theorem fileBA_wf : PickleWF fileBA := by
     · subst hm; exact absurd hid.symm h1
     · subst hm; exact Or.inl ⟨hid.symm, rfl⟩
     · subst hm; exact Or.inr ⟨hid.symm, rfl⟩
-  refine ⟨⟨?_⟩, ?_, ?_⟩
+  refine ⟨?_, ⟨?_⟩, ?_, ?_⟩
+  · intro var i h
+    simp [fileBA] at h
+    rcases h with ⟨rfl, rfl⟩ | ⟨rfl, rfl⟩ <;> decide
   · intro k e h h1
     rcases hf k e h h1 with ⟨rfl, rfl⟩ | ⟨rfl, rfl⟩
     · exact ⟨-1, 1, rfl, rfl, by decide, by decide, by decide, Or.inl rfl, Or.inl rfl,
@@ -1892,30 +1937,13 @@ theorem fileBA_wf : PickleWF fileBA := by
     · exact ⟨"a", by decide⟩
     · exact ⟨"b", by decide⟩
 
-/-- what the current loader builds: node 3 at level 1 whose high child, node 2, is at level 0 -/
-theorem load_levels_false_unordered :
-    (loadPickle fileBA false mgrAB).2.tbl.node? 3 = some ⟨1, -1, 2⟩ ∧
-    (loadPickle fileBA false mgrAB).2.tbl.node? 2 = some ⟨0, -1, 1⟩ := by
+/-- formerly F3 (`b ∧ a` written under b < a, loaded with `levels=False` into a < b): the
+loader now builds the ordered diagram of `a ∧ b` — node 4 on `a` over node 3 on `b` -/
+theorem load_levels_false_ordered :
+    (loadPickle fileBA false mgrAB).1 = .ok (.list [4]) ∧
+    (loadPickle fileBA false mgrAB).2.tbl.node? 4 = some ⟨0, -1, 3⟩ ∧
+    (loadPickle fileBA false mgrAB).2.tbl.node? 3 = some ⟨1, -1, 1⟩ := by
   decide +kernel
-
-theorem pickle_load_statement_false_F3 : ¬ pickle_load_statement := by
-  intro h
-  have hlm : (loadVars false 2 fileBA.vars [] mgrAB).1 = .ok [(0, 1), (1, 0)] := by decide +kernel
-  have hv : loadVars false fileBA.vars.length fileBA.vars [] mgrAB =
-      (.ok [(0, 1), (1, 0)], (loadVars false 2 fileBA.vars [] mgrAB).2) := by
-    rw [← hlm]; rfl
-  have hm1 : (loadVars false 2 fileBA.vars [] mgrAB).2 = mgrAB := by
-    simp [loadVars, fileBA, addVar, bind, M.bind', M.get, mgrAB_vars, pure, M.pure']
-  rw [hm1] at hv
-  obtain ⟨r, m', e, I, _⟩ := h fileBA false mgrAB fileBA_wf
-    (by intro u hu; simp [fileBA, Roots.values] at hu; subst hu; exact Or.inr ⟨_, by simp [fileBA]; right; right; rfl, rfl⟩)
-    mgrAB_nodeFree.inv mgrAB_bij rfl _ _ hv mgrAB_contig
-  obtain ⟨n3, n2⟩ := load_levels_false_unordered
-  rw [e] at n3 n2
-  have := I.wf.hi_lt 3 _ n3
-  rw [levelOf_node m'.tbl 2 _ (by decide) n2] at this
-  exact absurd this (by decide)
-
 
 /-! ### JSON: the content `dump_json` writes -/
 
@@ -2124,7 +2152,7 @@ theorem dumpJson_spec {m : Mgr} (hI : Inv m) (hv : DmpVarsOK m.tbl) {roots : Roo
 
 /-! ### JSON: `load_json` -/
 
-theorem M.bind_ok {α β : Type} {x : M α} {f : α → M β} {m m' : Mgr} {b : β}
+theorem M.dmp_bind_ok {α β : Type} {x : M α} {f : α → M β} {m m' : Mgr} {b : β}
     (h : (x >>= f) m = (.ok b, m')) : ∃ a m1, x m = (.ok a, m1) ∧ f a m1 = (.ok b, m') := by
   simp only [bind, M.bind'] at h
   cases hx : x m with
@@ -2139,7 +2167,7 @@ theorem dropList_lastLen (us : List Int) (m : Mgr) : (dropList us m).lastLen = m
   | nil => rfl
   | cons u rest ih =>
     rw [dropList, ih]
-    simp only [drop, decref]
+    simp only [dmpDrop, decref]
     split
     · rfl
     · split <;> rfl
@@ -2148,7 +2176,7 @@ theorem dropOpt_lastLen (o : Option Int) (m : Mgr) : (dropOpt o m).lastLen = m.l
   cases o with
   | none => rfl
   | some u =>
-    simp only [dropOpt, drop, decref]
+    simp only [dropOpt, dmpDrop, decref]
     split
     · rfl
     · split <;> rfl
@@ -2160,17 +2188,17 @@ theorem loadJson_loadOrder_enables_reordering (f : JsonFile) (m m' : Mgr) (r : R
     (h : loadJson f true m = (.ok r, m')) : m'.lastLen.isSome = true := by
   unfold loadJson at h
   simp only [if_true] at h
-  obtain ⟨_, m1, _, h⟩ := M.bind_ok h
-  obtain ⟨_, m2, _, h⟩ := M.bind_ok h
-  obtain ⟨_, m3, _, h⟩ := M.bind_ok h
-  obtain ⟨cache, m4, _, h⟩ := M.bind_ok h
-  obtain ⟨ks, m5, _, h⟩ := M.bind_ok h
-  obtain ⟨us, m6, _, h⟩ := M.bind_ok h
+  obtain ⟨_, m1, _, h⟩ := M.dmp_bind_ok h
+  obtain ⟨_, m2, _, h⟩ := M.dmp_bind_ok h
+  obtain ⟨_, m3, _, h⟩ := M.dmp_bind_ok h
+  obtain ⟨cache, m4, _, h⟩ := M.dmp_bind_ok h
+  obtain ⟨ks, m5, _, h⟩ := M.dmp_bind_ok h
+  obtain ⟨us, m6, _, h⟩ := M.dmp_bind_ok h
   generalize (releaseLoop true cache cache none m6) = rl at h
   obtain ⟨rr, last, m7⟩ := rl
   dsimp only at h
   cases hfin : (liftE rr >>= fun _ => do
-      assertConsistent
+      dmpAssertConsistent
       let _ ← configure (some true)
       pure ()) m7 with
   | mk res m8 =>
@@ -2182,9 +2210,9 @@ theorem loadJson_loadOrder_enables_reordering (f : JsonFile) (m m' : Mgr) (r : R
       obtain ⟨_, hm⟩ := h
       subst hm
       rw [dropOpt_lastLen]
-      obtain ⟨_, m9, _, h2⟩ := M.bind_ok hfin
-      obtain ⟨_, m10, hac, h3⟩ := M.bind_ok h2
-      obtain ⟨_, m11, hcf, h4⟩ := M.bind_ok h3
+      obtain ⟨_, m9, _, h2⟩ := M.dmp_bind_ok hfin
+      obtain ⟨_, m10, hac, h3⟩ := M.dmp_bind_ok h2
+      obtain ⟨_, m11, hcf, h4⟩ := M.dmp_bind_ok h3
       simp only [pure, M.pure', Prod.mk.injEq] at h4
       obtain ⟨_, hm⟩ := h4
       subst hm
@@ -2241,16 +2269,6 @@ def json_roundtrip_statement : Prop :=
     (loadOrder = true → ∀ v : String, tgt.tbl.vars.contains v = true → src.tbl.vars.contains v = true) →
     ∃ sched roots' m', loadJson f loadOrder { tgt with sched := sched } = (.ok roots', m') ∧ Inv m' ∧
       LoadedAs src.tbl roots m'.tbl roots'
-
-theorem stores_resolvable {t : Tbl} {nodes : List Nat} {f : PickleFile} (hst : Stores t nodes f)
-    (hr : ∀ u ∈ f.roots.values, u.natAbs = 1 ∨ u.natAbs ∈ nodes) : RootsResolvable f := by
-  intro u hu
-  by_cases h1 : u.natAbs = 1
-  · exact Or.inl h1
-  · rcases hr u hu with h | h
-    · exact absurd h h1
-    · obtain ⟨n, _, hf⟩ := hst.inn _ h h1
-      exact Or.inr ⟨_, List.mem_of_find?_eq_some hf, rfl⟩
 
 /-- the JSON round trip follows from the (unproved) load half and the proved dump half -/
 theorem json_roundtrip_of_load (hL : json_load_statement) : json_roundtrip_statement := by
